@@ -26,7 +26,8 @@ RULE = ("simulated elections (3-60 cards, 1-4 contests: plurality incl. multi-wi
 REQUIRED = ["identities_checked", "assorter:plurality", "assorter:supermajority", "assorter:irv", "audit:CARD_COMPARISON",
             "audit:ONEAUDIT", "elections_with_phantoms", "elections_with_pooled_cards", "elections_with_pooled_phantoms",
             "elections_with_unfindable_cards", "elections_with_missing_contest_mvr", "style_on", "style_off",
-            "identities_rechecked_after_cvrs_revised_in_place", "population_checked"]
+            "identities_rechecked_after_cvrs_revised_in_place", "population_checked",
+            "population_data_compared_with_per_card_values"]
 ASSUMPTIONS = ["pool labelling coherent (a batch is pooled or not); add_pool_contests applied under style (documented "
                "precondition of ONEAudit)", "A_i is computed by reference assorters written from the definitions "
                "(cross-checked against the real assorters by C02 and C14)"]
@@ -126,6 +127,22 @@ def check_identities(es, sim, rec):
                     Bs.append(float(b))
                     As.append(sim.ref_A(i, cid, name))
             if failed:
+                return False
+            # the same values as the audit itself obtains them: the data mvrs_to_data builds for this assertion from the
+            # whole population (use_all: no threshold) must be those per-card values, card by card
+            with np.errstate(all="ignore"):
+                ok, du = rec.guard(f"c03.call:mvrs_to_data:{sc['kind']}", a.mvrs_to_data, mvrs, sim.cvr_list, True)
+            if not ok:
+                return False
+            d = [float(v) for v in du[0]]
+            rec.count("population_data_compared_with_per_card_values")
+            if len(d) != len(Bs) or any(not math.isclose(x, y, rel_tol=1e-12, abs_tol=1e-15) for x, y in zip(d, Bs)):
+                j = next((k for k, (x, y) in enumerate(zip(d, Bs)) if not math.isclose(x, y, rel_tol=1e-12, abs_tol=1e-15)), min(len(d), len(Bs)))
+                cv = sim.cvr_list[idx[j]] if j < len(idx) else None
+                rec.violation("c03.identity", f"{sc['kind']}:{sc['audit_type']}:data_for_the_test_differ_from_per_card_overstatement_assorter",
+                              {"contest": cid, "assertion": name, "position": j, "len_data": len(d), "len_population": len(Bs),
+                               "data_value": d[j] if j < len(d) else None, "per_card_value": Bs[j] if j < len(Bs) else None,
+                               "card": None if cv is None else [cv.id, cv.pool, cv.phantom, sorted(cv.votes)], "use_style": sim.use_style})
                 return False
             n = len(idx)
             lhs = sum(Bs) / n - 0.5
